@@ -459,95 +459,10 @@ func checkC20(w *World, r *Report) {
 		"whole-tree equality of the filtered compile with the pruned unfiltered compile",
 		"filters supplied by callers other than the exported predicates and combinators",
 	}
-	p := w.Pkg("compile")
+	_ = w.Pkg("compile")
 
-	r.Rule("R20.1", "every built node passes the filter before it is attached, in exactly the same way at both attachment points: BuildNode is called only from buildChildren and buildListChildren, and in both every node it returns reaches the append only through `c.filter == nil || c.filter(node)` with no other condition", 3)
-	r.guard("R20.1", func() {
-		bn := w.Method("compile", "Compiler", "BuildNode")
-		filterF := w.Field("compile", "Compiler", "filter")
-		var callers []string
-		for _, fd := range funcDecls(p) {
-			if isTestFile(w, fd.Pos()) {
-				continue
-			}
-			if len(allCallsTo(p, fd.Body, bn)) > 0 {
-				callers = append(callers, funcDeclName(fd))
-			}
-		}
-		sort.Strings(callers)
-		r.Check(strings.Join(callers, ",") == "Compiler.buildChildren,Compiler.buildListChildren", "R20.1", "callers of BuildNode", token.NoPos, strings.Join(callers, ","), "schema nodes are built (and attached) outside the two filtered loops: {"+strings.Join(callers, ",")+"}")
-		for _, fn := range []string{"buildChildren", "buildListChildren"} {
-			f := w.Method("compile", "Compiler", fn)
-			fd, _ := w.FuncDecl(f)
-			ok := false
-			why := "filter loop not found"
-			ast.Inspect(fd.Body, func(x ast.Node) bool {
-				rs, isR := x.(*ast.RangeStmt)
-				if !isR {
-					return true
-				}
-				// the loop over BuildNode's result
-				src := objOfIdent(p, rs.X)
-				fromBuild := false
-				ast.Inspect(fd.Body, func(y ast.Node) bool {
-					if as, ok := y.(*ast.AssignStmt); ok && len(as.Rhs) == 1 && src != nil && objOfIdent(p, as.Lhs[0]) == src {
-						if ce, ok := as.Rhs[0].(*ast.CallExpr); ok && calleeOf(p, ce) == bn {
-							fromBuild = true
-						}
-					}
-					return true
-				})
-				if !fromBuild {
-					return true
-				}
-				sn := objOfIdent(p, rs.Value)
-				// body: if c.filter != nil && !c.filter(sn) { continue }; children = append(children, sn)
-				if len(rs.Body.List) != 2 {
-					why = "the loop body is not exactly {filter test; append}"
-					return true
-				}
-				is, isIf := rs.Body.List[0].(*ast.IfStmt)
-				if !isIf || is.Else != nil {
-					why = "first statement is not the filter test"
-					return true
-				}
-				conj := flattenAnd(is.Cond)
-				nilTest, call := false, false
-				for _, c := range conj {
-					c = ast.Unparen(c)
-					if be, ok := c.(*ast.BinaryExpr); ok && be.Op == token.NEQ && fieldOfSel(p, be.X) == filterF && isNilIdent(p, be.Y) {
-						nilTest = true
-					}
-					if u, ok := c.(*ast.UnaryExpr); ok && u.Op == token.NOT {
-						if ce, ok := ast.Unparen(u.X).(*ast.CallExpr); ok && fieldOfSel(p, ce.Fun) == filterF && len(ce.Args) == 1 && objOfIdent(p, ce.Args[0]) == sn {
-							call = true
-						}
-					}
-				}
-				skips := false
-				if len(is.Body.List) == 1 {
-					if b, ok := is.Body.List[0].(*ast.BranchStmt); ok && b.Tok == token.CONTINUE {
-						skips = true
-					}
-				}
-				appends := false
-				if as, ok := rs.Body.List[1].(*ast.AssignStmt); ok && len(as.Rhs) == 1 {
-					if ce, ok := as.Rhs[0].(*ast.CallExpr); ok {
-						if id, ok := ce.Fun.(*ast.Ident); ok && id.Name == "append" && len(ce.Args) == 2 && objOfIdent(p, ce.Args[1]) == sn {
-							appends = true
-						}
-					}
-				}
-				if len(conj) == 2 && nilTest && call && skips && appends {
-					ok = true
-				} else {
-					why = fmt.Sprintf("filter test is not exactly `c.filter != nil && !c.filter(node)` (conjuncts=%d nilTest=%v call=%v) followed by the append", len(conj), nilTest, call)
-				}
-				return true
-			})
-			r.Check(ok, "R20.1", fn+" filters before attaching", fd.Pos(), "if c.filter != nil && !c.filter(sn) { continue }; append", why+": some nodes (e.g. list keys) would bypass the filter, so the filtered schema is not the pruned unfiltered one")
-		}
-	})
+	r.Rule("R20.1", "every built node passes the filter before it is attached, and every node that passes is attached: each slice BuildNode returns is followed (through in-module helpers it is handed to) to the appends of its elements, and the condition under which control reaches each such append is exactly `another element ∧ (c.filter == nil ∨ c.filter(element))`; the slice never leaves otherwise", 2)
+	r.guard("R20.1", func() { c20Attach(w, r) })
 
 	r.Rule("R20.6", "nothing BuildNode returns is attached wholesale: in buildChildren and buildListChildren the slice BuildNode returns is never itself appended (spread) to the children — nodes reach the result only one by one through the filter test of R20.1 (a choice is filtered like any other node)", 2)
 	r.guard("R20.6", func() {
@@ -595,97 +510,8 @@ func checkC20(w *World, r *Report) {
 	r.Rule("R20.7", "a check that runs on the already filtered children never turns a filtered-away child into an error: in BuildList's walk over the unique paths every error is about a child that was found", 1)
 	r.guard("R20.7", func() { c20UniqueWalk(w, r) })
 
-	r.Rule("R20.2", "filter predicates and combinators: IsConfig = node.Config(); IsState = ¬IsConfig ∧ ¬IsOpd; Include is a disjunction, Exclude its negation, nil members are skipped; IncludeState(true) = IsState, IncludeState(false) = Exclude(IsState)", 5)
-	r.guard("R20.2", func() {
-		// IsState
-		fd, _ := w.FuncDecl(w.Func("compile", "IsState"))
-		rets := returnsIn(fd.Body)
-		ok := false
-		if len(rets) == 1 {
-			conj := flattenAnd(rets[0].Results[0])
-			seen := map[string]bool{}
-			for _, c := range conj {
-				if u, isU := ast.Unparen(c).(*ast.UnaryExpr); isU && u.Op == token.NOT {
-					if ce, isC := ast.Unparen(u.X).(*ast.CallExpr); isC && calleeOf(p, ce) != nil {
-						seen[calleeOf(p, ce).Name()] = true
-					}
-				}
-			}
-			ok = len(conj) == 2 && seen["IsConfig"] && seen["IsOpd"]
-		}
-		r.Check(ok, "R20.2", "IsState", fd.Pos(), "!IsConfig(sn) && !IsOpd(sn)", "IsState is not 'neither configuration nor operational command'")
-		cfd, _ := w.FuncDecl(w.Func("compile", "IsConfig"))
-		okC := false
-		if rets := returnsIn(cfd.Body); len(rets) == 1 {
-			if ce, isC := rets[0].Results[0].(*ast.CallExpr); isC {
-				if se, isS := ce.Fun.(*ast.SelectorExpr); isS && se.Sel.Name == "Config" && objOfIdent(p, se.X) == paramObj(p, cfd, 0) {
-					okC = true
-				}
-			}
-		}
-		r.Check(okC, "R20.2", "IsConfig", cfd.Pos(), "sn.Config()", "IsConfig is not the node's config flag")
-		for _, c := range []struct {
-			fn        string
-			hit, miss bool
-		}{{"Include", true, false}, {"Exclude", false, true}} {
-			f := w.Func("compile", c.fn)
-			ffd, _ := w.FuncDecl(f)
-			cls := closuresIn(ffd)
-			good := false
-			if len(cls) == 1 {
-				cl := cls[0]
-				var inLoop, after *bool
-				skipsNil := false
-				for _, s := range cl.Body.List {
-					switch x := s.(type) {
-					case *ast.RangeStmt:
-						ast.Inspect(x.Body, func(y ast.Node) bool {
-							if is, ok := y.(*ast.IfStmt); ok {
-								conj := flattenAnd(is.Cond)
-								for _, cj := range conj {
-									if be, ok := ast.Unparen(cj).(*ast.BinaryExpr); ok && be.Op == token.NEQ && isNilIdent(p, be.Y) {
-										skipsNil = true
-									}
-								}
-								if rr := returnsIn(is.Body); len(rr) == 1 {
-									if v := ConstOf(p, rr[0].Results[0]); v != nil {
-										b := constant.BoolVal(v)
-										inLoop = &b
-									}
-								}
-							}
-							return true
-						})
-					case *ast.ReturnStmt:
-						if v := ConstOf(p, x.Results[0]); v != nil {
-							b := constant.BoolVal(v)
-							after = &b
-						}
-					}
-				}
-				good = inLoop != nil && after != nil && *inLoop == c.hit && *after == c.miss && skipsNil
-			}
-			r.Check(good, "R20.2", c.fn, ffd.Pos(), fmt.Sprintf("some member matches ⇒ %v; none ⇒ %v; nil members skipped", c.hit, c.miss), c.fn+" is not the (negated) disjunction of its member filters")
-		}
-		ifd, _ := w.FuncDecl(w.Func("compile", "IncludeState"))
-		okI := false
-		if len(ifd.Body.List) == 2 {
-			if is, isIf := ifd.Body.List[0].(*ast.IfStmt); isIf && objOfIdent(p, is.Cond) == paramObj(p, ifd, 0) {
-				r1 := returnsIn(is.Body)
-				r2, isR := ifd.Body.List[1].(*ast.ReturnStmt)
-				if len(r1) == 1 && isR {
-					a := objOfIdent(p, r1[0].Results[0])
-					ce, isC := r2.Results[0].(*ast.CallExpr)
-					if a != nil && a.Name() == "IsState" && isC && calleeOf(p, ce) != nil && calleeOf(p, ce).Name() == "Exclude" && len(ce.Args) == 1 {
-						if o := objOfIdent(p, ce.Args[0]); o != nil && o.Name() == "IsState" {
-							okI = true
-						}
-					}
-				}
-			}
-		}
-		r.Check(okI, "R20.2", "IncludeState", ifd.Pos(), "true ⇒ IsState; false ⇒ Exclude(IsState)", "IncludeState does not select state / everything-but-state")
-	})
+	r.Rule("R20.2", "filter predicates and combinators: IsConfig = node.Config(); IsState = ¬IsConfig ∧ ¬IsOpd (compared as formulas over the same node); Include returns true exactly when some non-nil member accepts, Exclude false; IncludeState(true) = IsState, IncludeState(false) = Exclude(IsState)", 5)
+	r.guard("R20.2", func() { c20Combinators(w, r) })
 
 	r.Rule("R20.3", "filters are pure: the exported predicates and the closures of the combinators write nothing", 6)
 	r.guard("R20.3", func() {
@@ -786,61 +612,6 @@ func checkC20(w *World, r *Report) {
 		}
 	})
 
-	r.Rule("R20.4", "the default-case existence check is skipped exactly when a filter is set and rejects the choice itself", 1)
-	r.guard("R20.4", func() {
-		f := w.Method("compile", "Compiler", "checkChoiceDefaultCaseExists")
-		fd, _ := w.FuncDecl(f)
-		filterF := w.Field("compile", "Compiler", "filter")
-		ok := false
-		ast.Inspect(fd.Body, func(x ast.Node) bool {
-			is, isIf := x.(*ast.IfStmt)
-			if !isIf {
-				return true
-			}
-			// cond: DefaultCase()=="" || (c.filter != nil && !c.filter(choice))
-			var disj []ast.Expr
-			var fl func(e ast.Expr)
-			fl = func(e ast.Expr) {
-				e = ast.Unparen(e)
-				if be, ok := e.(*ast.BinaryExpr); ok && be.Op == token.LOR {
-					fl(be.X)
-					fl(be.Y)
-					return
-				}
-				disj = append(disj, e)
-			}
-			fl(is.Cond)
-			if len(disj) != 2 {
-				return true
-			}
-			for _, d := range disj {
-				conj := flattenAnd(d)
-				if len(conj) != 2 {
-					continue
-				}
-				nilTest, call := false, false
-				for _, c := range conj {
-					c = ast.Unparen(c)
-					if be, ok := c.(*ast.BinaryExpr); ok && be.Op == token.NEQ && fieldOfSel(p, be.X) == filterF && isNilIdent(p, be.Y) {
-						nilTest = true
-					}
-					if u, ok := c.(*ast.UnaryExpr); ok && u.Op == token.NOT {
-						if ce, ok := ast.Unparen(u.X).(*ast.CallExpr); ok && fieldOfSel(p, ce.Fun) == filterF && len(ce.Args) == 1 {
-							// argument is the choice node under test
-							if t := p.TypesInfo.TypeOf(ce.Args[0]); t != nil && strings.HasSuffix(t.String(), "schema.Choice") {
-								call = true
-							}
-						}
-					}
-				}
-				if nilTest && call {
-					if rets := returnsIn(is.Body); len(rets) == 1 && isNilIdent(p, rets[0].Results[0]) {
-						ok = true
-					}
-				}
-			}
-			return true
-		})
-		r.Check(ok, "R20.4", "checkChoiceDefaultCaseExists", fd.Pos(), "skipped iff c.filter != nil && !c.filter(choice)", "the missing-default-case check is not skipped exactly for choices the filter removes: a filter that drops the cases but not the check reports a spurious error")
-	})
+	r.Rule("R20.4", "the missing-default-case error is gated by the filter's verdict on the choice itself and by nothing else of the filter: its path condition has the form G ∧ (c.filter == nil ∨ c.filter(choice))", 1)
+	r.guard("R20.4", func() { c20DefaultCaseGate(w, r) })
 }
